@@ -117,6 +117,8 @@ func checkC06(c *Ctx, r *Report) {
 	// "Get Sensor Reading with any owner LUN": the sensor readers send their own command, built
 	// from the record (number and owner LUN), on every read (rules shared with C15, C20)
 	checkSensorRead(c, r)
+	// the DCMI power-reading period as the caller gave it: encoded arm by arm, saturating (C20's rule)
+	checkRollingAvgEncoder(c, r)
 
 	checkOperationTable(c, r)
 	checkBuildLiterals(c, r)
